@@ -51,7 +51,7 @@ class Abort(Exception):
     pass
 
 
-def run_impl(n, options, consts, extra_opts=None, extra_consts=None):
+def run_impl(n, options, consts, extra_opts=None, extra_consts=None, bounds=None):
     """Real minimize up to TrustRegion(...): returns ('err', message) | ('ok', options, constants, warnings)"""
     import cobyqa.main as M
     cap = {}
@@ -70,8 +70,8 @@ def run_impl(n, options, consts, extra_opts=None, extra_consts=None):
         with warnings.catch_warnings(record=True) as w:
             warnings.simplefilter("always")
             try:
-                M.minimize(lambda x: float(np.sum(x ** 2)), np.zeros(n), options=opts, **kw)
-                return ("returned",)
+                res = M.minimize(lambda x: float(np.sum(x ** 2)), np.zeros(n), bounds=bounds, options=opts, **kw)
+                return ("returned", int(res.status), [str(x.message) for x in w if issubclass(x.category, RuntimeWarning)])
             except Abort:
                 return ("ok", cap["o"], cap["c"], [str(x.message) for x in w if issubclass(x.category, RuntimeWarning)])
             except ValueError as exc:
@@ -234,6 +234,21 @@ def run(chk, rng, replay=None):
         for i, (case, _, _) in enumerate(spec_reqs):
             if not (a2[2 * i].endswith("valid=1") and a2[2 * i + 1].endswith("valid=1")):
                 specfail.append((case, "completed settings violate a documented relation: " + a2[2 * i][:90] + " / " + a2[2 * i + 1][:60]))
+    # the same rules hold on the degenerate problems that return early (all variables fixed, inconsistent bounds)
+    from scipy.optimize import Bounds
+    degenerate = 0
+    for i, (n, o, c) in enumerate(cases):
+        if not (expect_error(n, o, c) or i % 9 == 0):
+            continue
+        for kind, bnds, nfree in (("all-fixed", Bounds(np.zeros(n), np.zeros(n)), 0), ("inconsistent", Bounds(np.ones(n), -np.ones(n)), n)):
+            degenerate += 1
+            got = run_impl(n, o, c, bounds=bnds)
+            exp = expect_error(nfree, o, c)
+            case = {"n": n, "options": o, "constants": c, "bounds": kind}
+            if exp and got[0] != "err":
+                specfail.append((case, f"value outside its documented domain accepted on a problem with {kind} bounds: {got[:2]}"))
+            elif not exp and got[0] not in ("returned",):
+                specfail.append((case, f"valid settings not accepted on a problem with {kind} bounds: {got[:2]}"))
     # nb_points below n+1 is rejected after the sampling (end-to-end, no stub)
     from cobyqa import minimize
     low_pts = 0
@@ -253,6 +268,7 @@ def run(chk, rng, replay=None):
                 mism.append(({"n": nn, "options": {"nb_points": npt}, "constants": {}}, ("err", msg), a))
     # unknown names only warn and do not alter the completed settings
     unknown = 0
+    from scipy.optimize import Bounds
     for n, o, c in cases[:: max(1, len(cases) // 40)]:
         base = run_impl(n, o, c)
         alt = run_impl(n, o, c, extra_opts={"no_such_option": 1}, extra_consts={"no_such_constant": 2.0})
@@ -264,12 +280,16 @@ def run(chk, rng, replay=None):
                 specfail.append(({"n": n, "options": o, "constants": c}, "unknown names did not produce RuntimeWarning"))
         elif base[:2] != alt[:2]:
             specfail.append(({"n": n, "options": o, "constants": c}, "unknown names changed the error"))
+        if base[0] == "ok":
+            fx = run_impl(n, o, c, extra_opts={"no_such_option": 1}, extra_consts={"no_such_constant": 2.0}, bounds=Bounds(np.zeros(n), np.zeros(n)))
+            if fx[0] == "returned" and not (any("no_such_option" in w for w in fx[2]) and any("no_such_constant" in w for w in fx[2])):
+                specfail.append(({"n": n, "options": o, "constants": c, "bounds": "all-fixed"}, "unknown names did not produce RuntimeWarning on an all-fixed problem"))
     chk.coverage.update({
         "evaluations": len(cases), "distinct_nontrivial": len(nontrivial),
         "rule": "every option / constant alone on the boundary lattice of its documented domain (below, at, nextafter inside, typical, ..., above); the four coupled constant pairs and radius_init/radius_final on lattice x lattice in every presence pattern; nb_points around n+1 and (n+1)(n+2)/2 for n in 1,2,3,5; random subsets (half of them restricted to valid values). Non-trivial = at least one setting supplied; distinct by content.",
         "samples": [{"n": n, "options": o, "constants": c} for n, o, c in cases[-3:]],
         "rejected_with_ValueError": n_err, "accepted": n_ok, "error_kinds": len(kinds),
-        "unknown_name_cases": unknown, "low_nb_points_cases": low_pts,
+        "unknown_name_cases": unknown, "low_nb_points_cases": low_pts, "degenerate_bounds_cases": degenerate,
         "correspondence_mismatches": len(mism),
     })
     chk.assumptions += ["theorems are over exact rationals; the Float run of the same definitions is compared with the code (rounding is visible only there)",
